@@ -29,8 +29,6 @@ FEATS = dict(div=False, ts=False, strftime=False, nulls_order=True, setops_all=T
              full_join=True,
              any_sub=False,                 # unnest_subqueries compares the operand with a boolean for correlated ANY
              group_derived_expr=False,      # simplify rewrites an inlined GROUP BY expression differently from SELECT
-             const_cmp=False,               # simplify folds CASE with a constant-true later branch / drops parentheses
-             derived_const=False,           # ... also reachable through constants projected by a derived table
              derived_order_nolimit=False,   # merge_subqueries keeps an inner ORDER BY that names dropped aliases
              outer_derived=False,           # merge_subqueries inlines constants from the null-supplying side
              subq_under_or=False,           # unnest_subqueries turns a subquery predicate under NOT / OR into a join filter
